@@ -11,6 +11,7 @@ import (
 	"fmt"
 	"sync"
 	"sync/atomic"
+	"time"
 
 	"github.com/ipfs/boxo/path"
 	"github.com/ipfs/go-cid"
@@ -52,6 +53,15 @@ type Store struct {
 	removed map[cid.Cid]int    // cid -> number of distinct writes when the block was removed (absent = alive)
 	removes []cid.Cid          // every successful Remove in order
 	whole   *api
+	delay   time.Duration // every read takes this long (or until its context ends)
+}
+
+// SetDelay makes every read take d (real time) before it is answered; a read whose context ends first returns the
+// context's error.
+func (s *Store) SetDelay(d time.Duration) {
+	s.mu.Lock()
+	defer s.mu.Unlock()
+	s.delay = d
 }
 
 // Pins returns the recorded pin roots.
@@ -301,8 +311,16 @@ func (d *dagSvc) Get(ctx context.Context, c cid.Cid) (format.Node, error) {
 		}
 	}
 	gate := s.gate
+	delay := s.delay
 	s.mu.Unlock()
 
+	if delay > 0 {
+		select {
+		case <-time.After(delay):
+		case <-ctx.Done():
+			return nil, ctx.Err()
+		}
+	}
 	if fault == FaultStall {
 		if gate != nil {
 			gate.noteStall(c)
